@@ -63,3 +63,29 @@ func Harness_C16_tunnel_lifecycle() {
 	verif_Assert("C16.life.state_closed", t.GetState() == TunnelStateClosed)
 	verif_Cover("C16.life.done")
 }
+
+// Close arriving while Start is still running (peer notification / CloseAll during start-up):
+// whichever wins, the close body and the callback run exactly once, the tunnel ends Closed and
+// none of the goroutines Start launched remains.
+func Harness_C16_tunnel_start_race() {
+	verif_ClockSet(int64(1) << 60)
+	closed := 0
+	ctx, cancel := context.WithCancel(context.Background())
+	defer cancel()
+	mgr := &c16Mgr{ctx: ctx}
+	local := &verifConn{In: &verifReader{}, Out: &verifSink{}}
+	remote := &verifConn{In: &verifReader{}, Out: &verifSink{}}
+	t := NewTunnel(&TunnelConfig{ID: "t1", MappingID: "m1", Role: TunnelRoleTarget, Protocol: "tcp", LocalConn: local, TunnelRWC: remote,
+		Manager: mgr, OnClosed: func(r CloseReason, err error) { closed++ }})
+	var startErr error
+	verif_Spawn(func() { startErr = t.Start() })
+	verif_Spawn(func() { t.Close(CloseReasonPeerClosed, nil) })
+	left := verif_Quiesce()
+	_ = startErr
+	verif_Assert("C16.race.onclosed_once", closed == 1)
+	verif_Assert("C16.race.unregistered_once", mgr.unregistered == 1)
+	verif_Assert("C16.race.state_closed", t.GetState() == TunnelStateClosed)
+	verif_Assert("C16.race.conns_closed", local.Closed && remote.Closed)
+	verif_Assert("C16.race.nothing_running", left == 0)
+	verif_Cover("C16.race.done")
+}
